@@ -28,6 +28,15 @@
 #include <gmssl/x509.h>
 #include <gmssl/cms.h>
 #include <gmssl/pkcs8.h>
+#include <gmssl/base64.h>
+#include <gmssl/hex.h>
+#include <gmssl/sha1.h>
+#include <gmssl/hkdf.h>
+#include <gmssl/x509_crl.h>
+#include <gmssl/x509_req.h>
+#include <gmssl/pem.h>
+#include <gmssl/digest.h>
+#include <gmssl/sm4_cbc_mac.h>
 #include <gmssl/tls.h>
 #include "vh.h"
 #include "venv.h"
@@ -79,9 +88,24 @@ static void op_pkcs8(int inst, out_t *o) { uint8_t b[600], *p = b; size_t l = 0;
 static void op_record(int inst, out_t *o) { uint8_t key[16], mk[32], seq[8] = { 0, 0, 0, 0, 0, 0, 0, (uint8_t)inst }, hdr[5] = { 23, 1, 1, 0, 100 }; memset(key, 0x61 + inst, 16); memset(mk, 0x62, 32); SM4_KEY ek, dk; sm4_set_encrypt_key(&ek, key); sm4_set_decrypt_key(&dk, key); SM3_HMAC_CTX h; sm3_hmac_init(&h, mk, 32); uint8_t out[400], back[400]; size_t ol = 0, bl = 0; o->rc += tls_cbc_encrypt(&h, &ek, seq, hdr, MSG, 100, out, &ol); mix(o, out, ol); hdr[3] = (uint8_t)(ol >> 8); hdr[4] = (uint8_t)ol; o->rc += tls_cbc_decrypt(&h, &dk, seq, hdr, out, ol, back, &bl); mix(o, back, bl);
 	BLOCK_CIPHER_KEY bk; block_cipher_set_encrypt_key(&bk, BLOCK_CIPHER_sm4(), key); uint8_t iv[12] = { 9 }; o->rc += tls13_gcm_encrypt(&bk, iv, seq, 23, MSG, 90, 3, out, &ol); mix(o, out, ol); int rt; o->rc += tls13_gcm_decrypt(&bk, iv, seq, out, ol, &rt, back, &bl); mix(o, back, bl); }
 static void op_decode_bad(int inst, out_t *o) { uint8_t junk[64]; for (int i = 0; i < 64; i++) junk[i] = (uint8_t)(i * 37 + inst); junk[0] = 0x30; junk[1] = 0x3e; const uint8_t *cp = junk; size_t l = 64; SM2_KEY k; o->rc += sm2_public_key_info_from_der(&k, &cp, &l) == 1; const uint8_t *c; size_t cl; cp = junk; l = 64; o->rc += x509_cert_from_der(&c, &cl, &cp, &l) == 1; uint32_t nodes[32]; size_t nc; uint8_t oid[5] = { 0x06, 0x03, 0x2a, 0x81, 0x1c }; cp = oid; l = 5; o->rc += asn1_object_identifier_from_der(nodes, &nc, &cp, &l); mix(o, nodes, nc * 4); char hex[129]; uint8_t hb[64]; size_t hl; for (int i = 0; i < 128; i++) hex[i] = "0123456789abcdef"[(i + inst) & 15]; hex_to_bytes(hex, 128, hb, &hl); mix(o, hb, hl); }
+/* many small interfaces in one task: compressed points (square root), key files DER/PEM, base64 / hex / PEM text, DER time / OID / string helpers, CRL and
+   request issuing, SM9 encrypt / decrypt / exchange, CCM / XTS / CFB / OFB, SM4-CBC-MAC, ZUC-256, SHA-1/224/384, HKDF, SM2 key exchange helpers */
+static void op_misc(int inst, out_t *o) { uint8_t b[2048], b2[2048]; size_t n = 0, n2 = 0; uint8_t *p; const uint8_t *cp;
+	{ const SM2_KEY *k = &CK[inst % 4]; uint8_t c33[33]; SM2_Z256_POINT P; o->rc += sm2_z256_point_to_compressed_octets(&k->public_key, c33); o->rc += sm2_z256_point_from_octets(&P, c33, 33); sm2_z256_point_to_bytes(&P, b); mix(o, b, 64); uint8_t sh[64]; o->rc += sm2_ecdh(&CK[(inst + 1) % 4], c33, 33, sh); mix(o, sh, 64); }
+	{ SM2_KEY k2; p = b; n = 0; o->rc += sm2_private_key_info_to_der(&CK[inst % 4], &p, &n); mix(o, b, n); const uint8_t *at; size_t al; cp = b; n2 = n; o->rc += sm2_private_key_info_from_der(&k2, &at, &al, &cp, &n2); p = b; n = 0; o->rc += sm2_public_key_info_to_der(&CK[inst % 4], &p, &n); cp = b; n2 = n; o->rc += sm2_public_key_info_from_der(&k2, &cp, &n2); char *t = NULL; size_t tl = 0; FILE *f = open_memstream(&t, &tl); o->rc += sm2_public_key_info_to_pem(&CK[inst % 4], f); fclose(f); mix(o, t, tl); f = fmemopen(t, tl, "r"); o->rc += sm2_public_key_info_from_pem(&k2, f); fclose(f); free(t); }
+	{ BASE64_CTX bc; int l1 = 0, l2 = 0; base64_encode_init(&bc); base64_encode_update(&bc, MSG, 100 + inst, b, &l1); base64_encode_finish(&bc, b + l1, &l2); mix(o, b, (size_t)(l1 + l2)); base64_decode_init(&bc); int d1 = 0, d2 = 0; o->rc += base64_decode_update(&bc, b, l1 + l2, b2, &d1); base64_decode_finish(&bc, b2 + d1, &d2); mix(o, b2, (size_t)(d1 + d2)); char hx[130]; for (int i = 0; i < 128; i++) hx[i] = "0123456789abcdef"[(i * 7 + inst) & 15]; size_t hl; o->rc += hex_to_bytes(hx, 128, b, &hl); mix(o, b, hl); }
+	{ p = b; n = 0; time_t tv = 1790000000 + inst * 86400 * 400; o->rc += asn1_utc_time_to_der(tv, &p, &n); o->rc += asn1_generalized_time_to_der(tv + 7, &p, &n); mix(o, b, n); cp = b; n2 = n; time_t t1 = 0, t2 = 0; o->rc += asn1_utc_time_from_der(&t1, &cp, &n2); o->rc += asn1_generalized_time_from_der(&t2, &cp, &n2); mix(o, &t1, sizeof t1); mix(o, &t2, sizeof t2);
+	  uint32_t nodes[8] = { 1, 2, 156, 10197, 1, 301, (uint32_t)inst + 1 }; p = b; n = 0; o->rc += asn1_object_identifier_to_der(nodes, 7, &p, &n); mix(o, b, n); uint32_t back[32]; size_t bc2; cp = b; n2 = n; o->rc += asn1_object_identifier_from_der(back, &bc2, &cp, &n2); mix(o, back, bc2 * 4); int oid; p = b; n = 0; o->rc += x509_signature_algor_to_der(OID_sm2sign_with_sm3, &p, &n); cp = b; n2 = n; o->rc += x509_signature_algor_from_der(&oid, &cp, &n2); mix(o, &oid, sizeof oid); }
+	{ uint8_t nm[128]; size_t nl = 0; make_name(nm, &nl, "crl"); uint8_t rev[200], *rp = rev; size_t rvl = 0; uint8_t sn[2] = { 1, (uint8_t)inst }; x509_revoked_cert_to_der(sn, 2, 1790000000 - 10, NULL, 0, &rp, &rvl); p = b; n = 0; o->rc += x509_crl_sign_to_der(X509_version_v2, OID_sm2sign_with_sm3, nm, nl, 1790000000 - 100, 1790000000 + 1000, rev, rvl, NULL, 0, &CK[5], SM2_DEFAULT_ID, 16, &p, &n); mix(o, b, n > 60 ? 60 : n); o->rc += 10 * x509_crl_check(b, n, 1790000000);
+	  p = b2; n2 = 0; o->rc += x509_req_sign_to_der(X509_version_v1, nm, nl, &CK[inst % 4], (const uint8_t *)"", 0, OID_sm2sign_with_sm3, &CK[inst % 4], SM2_DEFAULT_ID, 16, &p, &n2); o->rc += 10 * x509_req_verify(b2, n2, SM2_DEFAULT_ID, 16); }
+	{ uint8_t k[32], iv[16], tag[16]; memset(k, 0x71 + inst, 32); memset(iv, 0x13, 16); SM4_KEY ek; sm4_set_encrypt_key(&ek, k); o->rc += sm4_ccm_encrypt(&ek, iv, 12, MSG, 9, MSG + 9, 70, b, 16, tag); mix(o, b, 70); mix(o, tag, 16); o->rc += sm4_ccm_decrypt(&ek, iv, 12, MSG, 9, b, 70, tag, 16, b2); mix(o, b2, 70); uint8_t fb[16]; memcpy(fb, iv, 16); sm4_ofb_encrypt(&ek, fb, MSG, 55, b); mix(o, b, 55); memcpy(fb, iv, 16); sm4_cfb_encrypt(&ek, 16, fb, MSG, 64, b); mix(o, b, 64);
+	  SM4_CBC_MAC_CTX mc; sm4_cbc_mac_init(&mc, k); sm4_cbc_mac_update(&mc, MSG, 77); sm4_cbc_mac_finish(&mc, tag); mix(o, tag, 16); ZUC256_STATE z; uint8_t iv23[23]; memset(iv23, 0x21, 23); zuc256_init(&z, k, iv23); uint32_t ks[8]; zuc256_generate_keystream(&z, 8, ks); mix(o, ks, sizeof ks);
+	  uint8_t dg[64]; SHA1_CTX s1; sha1_init(&s1); sha1_update(&s1, MSG, 150); sha1_finish(&s1, dg); mix(o, dg, 20); SHA384_CTX s3; sha384_init(&s3); sha384_update(&s3, MSG, 190); sha384_finish(&s3, dg); mix(o, dg, 48); size_t pl = 0; o->rc += hkdf_extract(DIGEST_sm3(), k, 16, MSG, 40, dg, &pl); o->rc += hkdf_expand(DIGEST_sm3(), dg, pl, MSG, 5, 80, b); mix(o, b, 80); }
+	{ SM9_ENC_MASTER_KEY em; SM9_ENC_KEY ek, eka; o->rc += sm9_enc_master_key_generate(&em); o->rc += sm9_enc_master_key_extract_key(&em, "bob", 3, &ek); n = 0; o->rc += sm9_encrypt(&em, "bob", 3, MSG, 30 + inst, b, &n); mix(o, b, n); n2 = 0; o->rc += sm9_decrypt(&ek, "bob", 3, b, n, b2, &n2); mix(o, b2, n2);
+	  o->rc += sm9_exch_master_key_extract_key(&em, "alice", 5, &eka); SM9_EXCH_KEY kb; o->rc += sm9_exch_master_key_extract_key(&em, "bob", 3, &kb); SM9_Z256_POINT RA, RB; sm9_z256_t rA; uint8_t ska[32], skb[32]; o->rc += sm9_exch_step_1A(&em, "bob", 3, &RA, rA); o->rc += sm9_exch_step_1B(&em, "alice", 5, "bob", 3, &kb, &RA, &RB, skb, 32); o->rc += sm9_exch_step_2A(&em, "alice", 5, "bob", 3, &eka, rA, &RA, &RB, ska, 32); mix(o, ska, 32); mix(o, skb, 32); } }
 /* handshake: two tasks */
 #include "tlsh_min.h"
-static struct { const char *name; op_f f; int pair; } OPS[] = { { "hash", op_hash, 0 }, { "hmac-kdf", op_hmac, 0 }, { "sm4-modes", op_sm4, 0 }, { "zuc", op_zuc, 0 }, { "sm2-keygen-sign-verify", op_sm2sign, 0 }, { "sm2-encrypt-ecdh", op_sm2enc, 0 }, { "x509-sign-verify", op_x509, 0 }, { "cms-sign-encrypt", op_cms, 0 }, { "tls-record", op_record, 0 }, { "decode-malformed", op_decode_bad, 0 }, { "sm9-sign-verify", op_sm9, 0 }, { "pkcs8-encrypt", op_pkcs8, 0 },
+static struct { const char *name; op_f f; int pair; } OPS[] = { { "hash", op_hash, 0 }, { "hmac-kdf", op_hmac, 0 }, { "sm4-modes", op_sm4, 0 }, { "zuc", op_zuc, 0 }, { "sm2-keygen-sign-verify", op_sm2sign, 0 }, { "sm2-encrypt-ecdh", op_sm2enc, 0 }, { "x509-sign-verify", op_x509, 0 }, { "cms-sign-encrypt", op_cms, 0 }, { "tls-record", op_record, 0 }, { "decode-malformed", op_decode_bad, 0 }, { "sm9-sign-verify", op_sm9, 0 }, { "pkcs8-encrypt", op_pkcs8, 0 }, { "misc-interfaces", op_misc, 0 },
 	{ "handshake-tlcp", NULL, 1 }, { "handshake-tls12", NULL, 2 }, { "handshake-tls13", NULL, 3 } };
 #define NOPS ((int)(sizeof OPS / sizeof OPS[0]))
 
